@@ -132,6 +132,60 @@ func init() {
 		}
 		return hx(buf.String())
 	}
+	// wgroups: document, pattern.  The paragraphs of the document are handed to ONE Encoder in the grouping the
+	// pattern spells: a digit k >= 1 = Encode(slice of the next k paragraphs), 's' = Encode(struct),
+	// 'p' = Encode(pointer to struct), 'q' = Encode(pointer to a slice of the next 2); what is left over is
+	// encoded struct by struct.  The text is read back.
+	ops["wgroups"] = func(a []string) string {
+		ps, err := readAll(arg(a, 0))
+		if err != nil {
+			return "err"
+		}
+		var buf bytes.Buffer
+		enc, err := control.NewEncoder(&buf)
+		if err != nil {
+			return "encode-err"
+		}
+		take := func(k int) []rawPara {
+			out := []rawPara{}
+			for ; k > 0 && len(ps) > 0; k-- {
+				out = append(out, rawPara{Paragraph: ps[0]})
+				ps = ps[1:]
+			}
+			return out
+		}
+		for _, c := range arg(a, 1) {
+			if len(ps) == 0 {
+				break
+			}
+			switch {
+			case c >= '1' && c <= '9':
+				err = enc.Encode(take(int(c - '0')))
+			case c == 'p':
+				x := take(1)[0]
+				err = enc.Encode(&x)
+			case c == 'q':
+				x := take(2)
+				err = enc.Encode(&x)
+			default:
+				err = enc.Encode(take(1)[0])
+			}
+			if err != nil {
+				return "encode-err"
+			}
+		}
+		for len(ps) > 0 {
+			if err := enc.Encode(take(1)[0]); err != nil {
+				return "encode-err"
+			}
+		}
+		t1 := buf.String()
+		ps2, err := readAll(t1)
+		if err != nil {
+			return "ok " + hx(t1) + " err"
+		}
+		return "ok " + hx(t1) + " " + showParas(ps2)
+	}
 	ops["wcycle"] = func(a []string) string {
 		ps, err := readAll(arg(a, 0))
 		if err != nil {
